@@ -165,11 +165,54 @@ impl<'a> P<'a> {
                 while self.i < self.s.len() && matches!(self.s[self.i], b'-' | b'+' | b'.' | b'e' | b'E' | b'0'..=b'9') {
                     self.i += 1;
                 }
-                Ok(J::Num(String::from_utf8_lossy(&self.s[st..self.i]).into_owned()))
+                let tok = String::from_utf8_lossy(&self.s[st..self.i]).into_owned();
+                if !json_number(&tok) {
+                    return Err(format!("bad number {tok}"));
+                }
+                Ok(J::Num(tok))
             }
             _ => Err(format!("unexpected byte {c} at {}", self.i)),
         }
     }
+}
+/// the JSON number grammar: -? (0 | [1-9][0-9]*) (. [0-9]+)? ([eE] [+-]? [0-9]+)?
+fn json_number(t: &str) -> bool {
+    let b = t.as_bytes();
+    let mut i = 0;
+    if i < b.len() && b[i] == b'-' {
+        i += 1;
+    }
+    let d0 = i;
+    while i < b.len() && b[i].is_ascii_digit() {
+        i += 1;
+    }
+    if i == d0 || (b[d0] == b'0' && i - d0 > 1) {
+        return false;
+    }
+    if i < b.len() && b[i] == b'.' {
+        i += 1;
+        let f0 = i;
+        while i < b.len() && b[i].is_ascii_digit() {
+            i += 1;
+        }
+        if i == f0 {
+            return false;
+        }
+    }
+    if i < b.len() && (b[i] == b'e' || b[i] == b'E') {
+        i += 1;
+        if i < b.len() && (b[i] == b'+' || b[i] == b'-') {
+            i += 1;
+        }
+        let e0 = i;
+        while i < b.len() && b[i].is_ascii_digit() {
+            i += 1;
+        }
+        if i == e0 {
+            return false;
+        }
+    }
+    i == b.len()
 }
 pub fn parse_json(text: &str) -> Result<J, String> {
     let mut p = P { s: text.as_bytes(), i: 0 };
@@ -642,6 +685,7 @@ fn kind_code(k: StreamKind) -> u64 {
 }
 
 struct ImplObs {
+    pretty: Option<String>,
     t1: Option<String>,
     err: Option<String>,
     ok: bool,
@@ -656,11 +700,11 @@ struct ImplObs {
 fn run_impl(doc_text: &str) -> ImplObs {
     let ev: Event = match serde_json::from_str(doc_text) {
         Ok(e) => e,
-        Err(e) => return ImplObs { t1: None, err: Some(e.to_string()), ok: false, re: None, kind: 0, violation: None },
+        Err(e) => return ImplObs { pretty: None, t1: None, err: Some(e.to_string()), ok: false, re: None, kind: 0, violation: None },
     };
     let t1 = match serde_json::to_string(&ev) {
         Ok(t) => t,
-        Err(e) => return ImplObs { t1: None, err: None, ok: true, re: None, kind: kind_code(ev.stream_kind()), violation: Some((format!("frame cannot be serialised: {e}"), "unwritable_frame".into())) },
+        Err(e) => return ImplObs { pretty: None, t1: None, err: None, ok: true, re: None, kind: kind_code(ev.stream_kind()), violation: Some((format!("frame cannot be serialised: {e}"), "unwritable_frame".into())) },
     };
     let re = parse_json(&t1).ok();
     let mut violation = None;
@@ -692,7 +736,8 @@ fn run_impl(doc_text: &str) -> ImplObs {
             }
         }
     }
-    ImplObs { t1: Some(t1), err: None, ok: true, re, kind: kind_code(ev.stream_kind()), violation }
+    let pretty = serde_json::to_string_pretty(&[ev.clone()]).ok();
+    ImplObs { pretty, t1: Some(t1), err: None, ok: true, re, kind: kind_code(ev.stream_kind()), violation }
 }
 fn clip(s: &str) -> String {
     s.chars().take(300).collect()
@@ -712,15 +757,100 @@ fn some_null_dropped(t1: &str, t2: &str) -> bool {
     }
 }
 
-fn coq_case(doc: &J, o: &ImplObs) -> String {
+const TEXT_LIMIT: usize = 2500;
+
+fn coq_case(doc_text: &str, doc: Option<&J>, o: &ImplObs) -> String {
     let mut d = String::new();
-    coq_json(doc, &mut d);
+    match doc {
+        Some(j) => coq_json(j, &mut d),
+        None => d.push_str("JNull"),
+    }
     let mut re = String::new();
     match &o.re {
         Some(j) => coq_json(j, &mut re),
         None => re.push_str("JNull"),
     }
-    format!("{{| c_doc := {d}; c_impl_ok := {}; c_impl_re := {re}; c_impl_kind := {} |}}", coq_bool(o.ok), o.kind)
+    let t1 = o.t1.clone().unwrap_or_default();
+    let pretty = o.pretty.clone().unwrap_or_default();
+    // texts are compared too (model printer / parser against serde_json's) unless they are very large
+    let with_text = doc.is_none() || (doc_text.chars().count() <= TEXT_LIMIT && t1.chars().count() <= TEXT_LIMIT && pretty.chars().count() <= 2 * TEXT_LIMIT);
+    let (dt, it, ip) = if with_text { (coq_str(doc_text), coq_str(&t1), coq_str(&pretty)) } else { ("[]".to_string(), "[]".to_string(), "[]".to_string()) };
+    format!(
+        "{{| c_text := {}; c_doc_text := {dt}; c_has_ast := {}; c_doc := {d}; c_impl_ok := {}; c_impl_re := {re}; c_impl_kind := {}; c_impl_text := {it}; c_impl_pretty := {ip} |}}",
+        coq_bool(with_text),
+        coq_bool(doc.is_some()),
+        coq_bool(o.ok),
+        o.kind
+    )
+}
+
+/// text-level variations of a well-formed document (what the tree-level generator cannot express): escapes,
+/// whitespace, number spellings, lone surrogates, control characters, truncation, trailing text
+fn mutate_text(r: &mut Rng, text: &str) -> (String, &'static str) {
+    let k = r.below(18);
+    let rep1 = |t: &str, from: &str, to: &str| t.replacen(from, to, 1);
+    match k {
+        0 => (rep1(text, "\"id\":\"", "\"id\":\"\\ud800"), "txt_lone_high_surrogate"),
+        1 => (rep1(text, "\"id\":\"", "\"id\":\"\\udc00x"), "txt_lone_low_surrogate"),
+        2 => (rep1(text, "\"id\":\"", "\"id\":\"\\ud83d\\ude00\\u0041\\/\\u00E9"), "txt_escapes_accepted"),
+        3 => (rep1(text, "\"id\":\"", "\"id\":\"\u{1}"), "txt_raw_control_char"),
+        4 => {
+            let mut t = text.to_string();
+            if t.ends_with('}') {
+                t.pop();
+                t.push_str(",}");
+            }
+            (t, "txt_trailing_comma")
+        }
+        5 => {
+            let ws = [" ", "\t", "\r\n", "\n  "];
+            let mut t = String::new();
+            let mut in_str = false;
+            let mut esc = false;
+            for c in text.chars() {
+                t.push(c);
+                if in_str {
+                    if esc {
+                        esc = false;
+                    } else if c == '\\' {
+                        esc = true;
+                    } else if c == '"' {
+                        in_str = false;
+                    }
+                } else if c == '"' {
+                    in_str = true;
+                } else if matches!(c, '{' | ',' | ':' | '[') && r.chance(1, 3) {
+                    t.push_str(ws[r.below(4) as usize]);
+                }
+            }
+            (format!(" {t}\n"), "txt_whitespace")
+        }
+        6 => {
+            let bad = *r.pick(&["01", "+1", "1.", "1e2", "-0", "1.0", ".5", "0x10", "1_000", "NaN", "Infinity", "-", "1E+2"]);
+            // the seq member is `"seq":<digits>` in every generated document
+            let re = text.find("\"seq\":").map(|i| {
+                let st = i + 6;
+                let en = text[st..].find(|c: char| !c.is_ascii_digit()).map(|x| st + x).unwrap_or(text.len());
+                format!("{}{}{}", &text[..st], bad, &text[en..])
+            });
+            (re.unwrap_or_else(|| text.to_string()), "txt_number_spelling")
+        }
+        7 => (format!("{text}x"), "txt_trailing_garbage"),
+        8 => (format!("{text}{text}"), "txt_two_documents"),
+        9 => (format!("\u{feff}{text}"), "txt_bom"),
+        10 => {
+            let n = text.chars().count();
+            let cut = r.range(1, n.max(2) as u64 - 1) as usize;
+            (text.chars().take(cut).collect(), "txt_truncated")
+        }
+        11 => (rep1(text, "\"id\":", "\"\\u0069d\":"), "txt_escaped_key"),
+        12 => (rep1(text, "\"type\":", "\"typ\\u0065\":"), "txt_escaped_tag_key"),
+        13 => (rep1(text, "\"id\":\"", "\"id\":\"\\x41"), "txt_bad_escape"),
+        14 => (rep1(text, "\"id\":\"", "\"id\":\"\\u12"), "txt_short_hex_escape"),
+        15 => (text.replacen(':', " : ", 3), "txt_space_around_colon"),
+        16 => (rep1(text, "\"id\":\"", "\"id\":'"), "txt_single_quote"),
+        _ => (rep1(text, "\"id\":\"", "\"id\":\"\\ud83d\\u0041"), "txt_high_surrogate_then_non_surrogate"),
+    }
 }
 
 /// frames built as Rust values (values the reader can never produce: Some(Value::Null))
@@ -828,8 +958,8 @@ fn main() {
     let schema: Value = serde_json::from_str(&std::fs::read_to_string(&schema_path).unwrap_or_else(|e| panic!("cannot read {schema_path}: {e}"))).expect("schema json");
     let variants: Vec<Value> = schema["variants"].as_array().cloned().unwrap_or_default();
     let thorough = a.thorough();
-    let per_variant = if thorough { 120 } else { 20 };
-    let n_hist = if thorough { 400 } else { 100 };
+    let per_variant = if thorough { 120 } else { 14 };
+    let n_hist = if thorough { 400 } else { 60 };
     let mut r = Rng::new(a.seed);
     let mut w = CaseWriter::new(&a.out, "Base.Json Model.Wire Gen.EventSchema", "check_case", "model_obs", 40);
     let mut distinct = Distinct::default();
@@ -883,6 +1013,11 @@ fn main() {
             }
             let mut text = String::new();
             print_json(&J::Obj(doc), &mut text);
+            // one in four well-formed documents also goes through a text-level variation (as a separate case)
+            if !malformed && text.chars().count() <= TEXT_LIMIT && r.chance(1, 4) {
+                let (t2, l2) = mutate_text(&mut r, &text);
+                cases.push(DocCase { emitted: false, some_null_skipped: false, doc_text: t2, label: format!("{label}+{l2}"), variant: v["name"].as_str().unwrap_or("?").to_string(), wellformed: false });
+            }
             cases.push(DocCase { emitted: false, some_null_skipped: false, doc_text: text, label, variant: v["name"].as_str().unwrap_or("?").to_string(), wellformed: !malformed });
         }
     }
@@ -898,13 +1033,10 @@ fn main() {
         res.evaluations += 1;
         res.oracle_checks += 1;
         res.bump(&format!("doc.{}", c.label.split('+').nth(1).unwrap_or(if c.wellformed { "wellformed" } else { "other" })));
-        let doc = match parse_json(&c.doc_text) {
-            Ok(d) => d,
-            Err(e) => {
-                res.notes.push(format!("generator produced text the harness parser rejects ({e}): {}", clip(&c.doc_text)));
-                continue;
-            }
-        };
+        let doc: Option<J> = parse_json(&c.doc_text).ok();
+        if doc.is_none() {
+            res.bump("doc.text_rejected_by_harness_parser");
+        }
         let replay = json!({"label": c.label, "variant": c.variant, "doc": clip(&c.doc_text), "doc_len": c.doc_text.len(), "seed": a.seed});
         match got {
             Err(_) => {
@@ -923,7 +1055,7 @@ fn main() {
                         res.oracle_violations.push(OracleViolation { case_id: i as i64, what: format!("a frame the writer produced is rejected by the reader: {e}"), class: cls.into(), replay: replay.clone() });
                     } else if c.wellformed {
                         // a well-formed document generated from the schema must be accepted
-                        if jdepth(&doc) < 128 {
+                        if doc.as_ref().map(jdepth).unwrap_or(0) < 128 {
                             res.oracle_violations.push(OracleViolation { case_id: i as i64, what: "a frame generated from the extracted schema is rejected by the reader".into(), class: "schema_document_rejected".into(), replay: replay.clone() });
                         }
                     }
@@ -941,8 +1073,10 @@ fn main() {
                 if let Some((what, class)) = &o.violation {
                     res.oracle_violations.push(OracleViolation { case_id: i as i64, what: what.clone(), class: class.clone(), replay: replay.clone() });
                 }
-                if !a.oracle_only() {
-                    let id = w.push(coq_case(&doc, &o));
+                if doc.is_none() && c.doc_text.chars().count() > 3 * TEXT_LIMIT {
+                    res.bump("doc.text_only_case_too_large_skipped");
+                } else if !a.oracle_only() {
+                    let id = w.push(coq_case(&c.doc_text, doc.as_ref(), &o));
                     if res.case_index.len() < 3000 {
                         res.case_index.insert(id.to_string(), replay.clone());
                     }
